@@ -437,6 +437,10 @@ func c04Alphabet(s *sessSys) []sessReq {
 				p, f, q = up4RuleSet(ue, teid, c04Peers[0], "", 1, 0)
 				q[0].GateDL, f[0] = 1, sFAR{ID: 1, Action: ActionDrop}
 				mkEst("est-gate-closed-ul-drop", p, f, q)
+				// both gates closed while both FARs forward: the entries drop, with exactly the parameters of the drop actions
+				p, f, q = up4RuleSet(ue, teid, c04Peers[0], "", 1, 0)
+				q[0].GateUL, q[0].GateDL = 1, 1
+				mkEst("est-gates-closed-forwarding", p, f, q)
 			}
 		}
 		for _, x := range s.m.live(c) {
